@@ -248,9 +248,13 @@ func runC11(r *Run) {
 	})
 	_ = orch
 	s.OnDrain = func() {
-		for _, l := range held {
-			l := l
-			RootCall(func() { l.OnIgnore() })
+		rest := held
+		if len(rest) > 0 {
+			s.Go("drain-releaser", func(tk *Task) {
+				for _, l := range rest {
+					l.OnIgnore()
+				}
+			})
 		}
 	}
 	s.Run()
